@@ -65,7 +65,13 @@ def ids_ok(obj):
     n = type(obj).__name__
     try:
         if n == "Transaction":
-            return obj.hash() == indep.sha256d(indep.enc_tx(obj))
+            if obj.hash() != indep.sha256d(indep.enc_tx(obj)):
+                return False
+            # objects the node derives from this one (the thing that is signed; a re-signed copy) get their own ids
+            se = obj.signable_equivalent()
+            if se.hash() != indep.sha256d(indep.enc_tx(se)) or se.hash() != indep.sha256d(se.serialize()):
+                return False
+            return True
         if n == "Block":
             return obj.hash() == indep.sha256d(indep.enc_header(obj.header)) and obj.header.hash() == obj.hash() \
                 and all(ids_ok(t) for t in obj.transactions)
